@@ -36,6 +36,7 @@ PROP = {
  "integer division of decimal operands floors": ("C14", "-7 // 2 was -4 for float64 operands (math.Floor) and -3 for JSON numbers, integers and decimals (truncating QuoRem): the result depended on the Go type carrying the numbers; C14's harness had restricted // to non-negative operands (remark of a sub-agent)"),
  "a unary sign binds tighter": ("C10", "-a // b and -a % b were parsed as -(a // b) and -(a % b) (operand of a unary sign parsed with the additive binding power); reported by C10's unary harness as soon as // floored for every number type (before, only float documents could tell the groupings apart, which two sub-agents had remarked)"),
  "to_number returns null for strings that are not JSON numbers": ("C02", "to_number('+1'), to_number('.5'), to_number('1.') and to_number('01') were numbers although the texts are not JSON numbers (decimal128's UnmarshalJSON accepts more than the json-number production); reported by H_C02_tonumber once the reference stopped treating such texts as unspecified (remark of a sub-agent)"),
+ "a bare array wildcard over an array of nulls": ("C18", "Search(\"[*]\", [null]) and a[*] over an array of nulls returned a nil []any, which encoding/json serialises as null instead of [] (pruneArray left its result nil when no element survived); remark of a round-6 sub-agent, reported by H_C18_types once nil slices / maps counted as not plain JSON and bare selectors over all-null arrays were among its templates"),
  "multi-select on a null value": ("C01", "`null` | [@, @] was null while `null` | [@] is [null]; a[*].[b] and a[*].{k: b} kept entries for null elements (also C17)"),
 }
 log = subprocess.check_output(['git','-C','/repo','log','--format=%h %s','--reverse']).decode().splitlines()
